@@ -43,6 +43,14 @@ theorem bindings_unique : (Gen.Bindings.table.map fun b => (b.script, b.name)).N
 example : ("String", "contains") ∈ Gen.Bindings.table.map fun b => (b.script, b.name) := by
   decide +kernel
 
+/-- The bodies of the view methods that are algorithms (`StringChars::slice`,
+`StringChars::list`, `StringLines::slice`, `RotoString::from_chars`) are,
+statement for statement, the ones `Model/Strings.lean` transcribes. -/
+theorem view_algorithms_as_transcribed : Gen.Bindings.algorithms = transcribed := by
+  decide +kernel
+
+example : (transcribed.map (·.1)).contains "StringLines::slice" = true := by decide +kernel
+
 /-! ## `StringChars` -/
 
 /-- `chars().get(n)` is the n-th character, `none` iff `n ≥ len`. -/
